@@ -402,6 +402,7 @@ def node_lane(st, rng, n):
             os.remove(path + suffix)
     store = nodekit.quiet(BlockStore, path)
     made = {}
+    pending, written, batch = [], set(), rng.choice([1, 2, 5])
     for k in range(n):
         txs = []
         for _ in range(rng.choice([2, 3, 4, 5, 8, 9])):
@@ -417,20 +418,31 @@ def node_lane(st, rng, n):
         s.merkle_root_hash = cons.calc_merkle_root_hash(txs)
         blk = dt.Block(dt.BlockHeader(s, g.pow_evidence(rng)), txs)
         made[blk.hash()] = (ids, s.merkle_root_hash)
-        try:
-            store.write_blocks_to_disk([blk])
-        except Exception as e:
-            st.v("node-lane:store-refuses-block", "write_blocks_to_disk raised %r" % (e,), {"list": [x.hex() for x in ids], "lane": "node"})
-            continue
+        # blocks reach the store one at a time (relayed blocks) or many in one write (bulk download)
+        pending.append(blk)
+        if len(pending) >= batch or k == n - 1:
+            try:
+                store.write_blocks_to_disk(pending)
+                written.update(b_.hash() for b_ in pending)
+                st.c_extra["store_writes_of_several_blocks"] = st.c_extra.get("store_writes_of_several_blocks", 0) + (len(pending) > 1)
+            except Exception as e:
+                st.v("node-lane:store-refuses-block", "write_blocks_to_disk raised %r" % (e,), {"list": [x.hex() for x in ids], "lane": "node"})
+            pending = []
+            batch = rng.choice([1, 1, 2, 5, 12])
         obtained = [("decoded-from-bytes", dt.Block.deserialize(blk.serialize()))]
         for route, b in obtained:
             _judge_held_block(st, mt, cons, route, b, ids, s.merkle_root_hash)
     store.close()
     store = nodekit.quiet(BlockStore, path)
+    back = set()
     for b in store.read_blocks_from_disk():
         if b.hash() in made:
+            back.add(b.hash())
             ids, root = made[b.hash()]
             _judge_held_block(st, mt, cons, "read-back-from-store", b, ids, root)
+    if written - back:
+        st.v("node-lane:held-block-missing-after-reload", "%d of %d blocks written to the store do not come back from it" % (
+            len(written - back), len(written)), {"list": [], "lane": "node"})
     store.close()
     for suffix in ("", "-journal"):
         if os.path.exists(path + suffix):
